@@ -351,6 +351,10 @@ def _base(how, b, ats, T):
     pairs = BASE_BAGS[b]
     if how == "atom":
         return P.formula(A(pairs[0][0]))
+    if how == "str" and b == "half" and variant:
+        # a group with a decimal multiplier above one, followed by more atoms: (O)1.5H0.5, (O3H)0.5, (O)1.5 H0.5
+        s = ["", "(%s)1.5%s0.5" % (R(3), R(2)), "(%s3%s)0.5" % (R(3), R(2)), "(%s)1.5 %s0.5" % (R(3), R(2))][variant]
+        return P.formula(s, table=tab)
     if how == "str":
         s = "".join("%s%s" % (R(i), ("" if c == 1 else ("%g" % c))) for i, c in pairs)
         return P.formula(s, table=tab)
